@@ -88,6 +88,9 @@ pub enum Op {
     Reparse { prefix: bool },
     /// replace the record by the one serde_json reads back from its JSON form
     Reserde,
+    /// replace the record by `other.clone_from(&record)`, where `other` is an unrelated record built
+    /// with the last key of the history's key list (another key, other content, other seq)
+    CloneFrom,
 }
 
 impl Op {
@@ -105,7 +108,7 @@ impl Op {
             | Op::RemoveKey { k, .. }
             | Op::RemoveInsert { k, .. }
             | Op::SetPublicKey { k, .. } => Some(*k),
-            Op::Redecode | Op::CloneSwap | Op::Reparse { .. } | Op::Reserde => None,
+            Op::Redecode | Op::CloneSwap | Op::Reparse { .. } | Op::Reserde | Op::CloneFrom => None,
         }
     }
     /// name of the public function called
@@ -143,10 +146,11 @@ impl Op {
             Op::CloneSwap => "clone",
             Op::Reparse { .. } => "reparse",
             Op::Reserde => "reserde",
+            Op::CloneFrom => "clone_from",
         }
     }
     pub fn is_mutator(&self) -> bool {
-        !matches!(self, Op::Redecode | Op::CloneSwap | Op::Reparse { .. } | Op::Reserde)
+        !matches!(self, Op::Redecode | Op::CloneSwap | Op::Reparse { .. } | Op::Reserde | Op::CloneFrom)
     }
 }
 
